@@ -199,6 +199,11 @@ def run_expr(case, drv) -> Outcome:
         want = (D.conj().T if adj else D) @ x
         stv, v = results[adj]
         which = 'adjoint' if adj else 'forward'
+        # exact comparison needs every integer to stay exactly representable in float64: deep gram towers reach 1e19; beyond 2^45 in
+        # the (exact) model result the case is outside the exact regime and is not compared
+        big = max((abs(int(t.split('/')[0])) for sc_ in m['den'] for t in str(sc_).split(';') if t.strip('-').split('/')[0].isdigit()), default=0)
+        if big > 2 ** 45 or float(want.abs().max()) > 2.0 ** 45:
+            return Outcome(key=('expr-magnitude', n, fmt(e)), nontrivial=False, branches=['magnitude-skip'], sample={'n': n, 'expr': fmt(e)})
         if not strs_equal(m['build'], m['den']) or not strs_equal(m['den'], tensor_strs(want)):
             corr = corr or f'model inconsistency ({which}): build {m["build"]} den {m["den"]} dense {tensor_strs(want)}'
         if stv == 'err':
